@@ -1,3 +1,4 @@
+import GrmVerif.Lemmas.Total
 import GrmVerif.Lemmas.TableViews
 import GrmVerif.Lemmas.Closure
 import GrmVerif.Lemmas.CertProps
@@ -222,5 +223,12 @@ theorem reachable_exact (A : Automaton) (hstart : A.start < A.nstates)
     (hedges : ∀ s, s < A.nstates → ∀ e ∈ A.edges s, e.2 < A.nstates)
     (R : List Nat) (h : reachableStates A = some R) : ∀ s, s ∈ R ↔ ReachSt A s :=
   reachableStates_exact A hstart hedges R h
+
+/-- the reference closure and the reference reachability always answer (never "fuel exhausted") -/
+theorem closure_total (G : Grammar) (N : Nat → Bool) (F : Nat × Nat → Bool) (core : List Item) :
+    ∃ S, Closure.close1 G N F core = some S := Total.close1_total G N F core
+
+theorem reachable_total (A : Automaton) : ∃ R, Closure.reachableStates A = some R :=
+  Total.reachableStates_total A
 
 end GrmVerif.C16
